@@ -569,3 +569,18 @@ Proof.
   cbn [tdrk_loop]. unfold tdrk_dt_gen, tdrk_step_gen. cbv zeta.
   set (dt := min_abs g (target - x)). set (p0 := est it x dt). split_ifs; try reflexivity; try congruence.
 Qed.
+
+(* ================================================================== the error measure is a RELATIVE error ================= *)
+(* Gen/StepCtlGen.v also carries the expression the enlargement factor is computed from (read from the source).  Scaling the state by
+   any non-zero factor c scales both the distance of the two solutions and the norm of the state by |c|: the measure -- hence p, hence
+   every accept / reject decision and every sub-step -- does not change. *)
+Lemma rel_err_scale (c d n : Q) : ~ c == 0 -> (c * d) / (c * n) == d / n.
+Proof.
+  intros Hc. unfold Qdiv. rewrite Qinv_mult_distr.
+  transitivity ((c * / c) * (d * / n)); [ring|]. rewrite Qmult_inv_r by exact Hc. ring.
+Qed.
+
+Lemma err_gen_scale_invariant (c d n : Q) : ~ c == 0 ->
+  tdvp_err_gen (c * d) (c * n) == tdvp_err_gen d n /\ pc_err_gen (c * d) (c * n) == pc_err_gen d n
+  /\ tdrk_err_gen (c * d) (c * n) == tdrk_err_gen d n.
+Proof. intros Hc. unfold tdvp_err_gen, pc_err_gen, tdrk_err_gen. repeat split; now apply rel_err_scale. Qed.
